@@ -69,7 +69,7 @@ def nego_cases(quick, rnd):
             if rev and len(comps) == 1:
                 continue
             for n in range(0, 4):
-                for lose in itertools.combinations(range(4), n):
+                for lose in itertools.combinations(range(5), n):
                     table.append((ctlA, first, comps, rev, list(lose)))
         for lose in ([0, 1, 2, 3, 4, 5], [0, 2, 4], [1, 3, 5], [4], [5], [4, 5]):
             table.append((True, "A", [1], False, lose))
@@ -121,8 +121,13 @@ def run(chk, replay=None):
             packed = [b for b in packed if not any(s["a"] == "Tick" for s in b["steps"])] + \
                      rnd.sample([b for b in packed if any(s["a"] == "Tick" for s in b["steps"])],
                                 min(20, len([b for b in packed if any(s["a"] == "Tick" for s in b["steps"])])))
+        sim = []
+        if not quick:
+            # random walks beyond the tour's bounds (more checks, longer histories)
+            sim, gst["simulate"] = vf.tlc_simulate("IceGen.tla", "IceGenSim.cfg", num=120, depth=40, seed=chk.seed)
+            sim = [{"ctl": b["ctl"], "steps": b["steps"]} for b in sim]
         execs = []
-        for i, b in enumerate(packed + mx):
+        for i, b in enumerate(packed + mx + sim):
             b["case"] = "s%d" % i
             b["kind"] = "script"
             execs.append(b)
